@@ -126,7 +126,12 @@ impl TransactionOutputAmountBuilder {
         }
         let required_coin = calc.calculate_ada()?;
 
-        Ok(self.with_coin_and_asset(&required_coin, &multiasset))
+        // the calculators above price a fake 57-byte address; the address of this builder can be longer
+        // (Byron addresses, pointer addresses with large pointers), so the minimum of the real output is taken into account
+        let output = self.with_coin_and_asset(&required_coin, &multiasset).build()?;
+        let min_for_output = min_ada_for_output(&output, data_cost)?;
+
+        Ok(self.with_coin_and_asset(&std::cmp::max(required_coin, min_for_output), &multiasset))
     }
 
     pub fn build(&self) -> Result<TransactionOutput, JsError> {
